@@ -125,6 +125,8 @@ async function main () {
     console.log(`KNOWN-FINDING: property=${args.id} ${sig} — ${knownSigs.get(sig).what} (re-observed ${vs.length}x)`)
   }
   const replayDir = path.join(VERIF, 'replays', args.id)
+  // the replays of the previous run survive one more run (replays/<ID>.prev): an alarm that does not repeat can still be examined
+  try { if (fs.existsSync(replayDir)) { fs.rmSync(replayDir + '.prev', { recursive: true, force: true }); fs.renameSync(replayDir, replayDir + '.prev') } } catch (e) {}
   try { fs.rmSync(replayDir, { recursive: true, force: true }) } catch (e) {}
   let printed = 0
   for (const [sig, vs] of newSigs) {
